@@ -34,7 +34,7 @@ PROBES = {
     # (emptying the leader group is shown reachable by the design-level F4 demonstration below)
     "C17": [("MCStaker_quickB.cfg", "NeverOfflineAtEarlyCheck"), ("MCStaker_quickB.cfg", "NeverEvicted")],
 }
-SCRIPTED = ("f4", "edges", "exitmax")
+SCRIPTED = ("f4", "edges", "exitmax", "capq")
 F4_SIGNATURE = "leader-group-emptied:exit-of-only-active-validator"
 WORKERS = 6
 
